@@ -147,7 +147,8 @@ pub fn cmd_sizes(seed: u64, n: usize, out: &mut dyn Write, extra: &[String]) {
                 Ok(st) => {
                     srcs += &format!("({k} {})", st.g[0]);
                     rows += &format!("({k} {} {} {} {} {} {} {})", st.g[2], st.g[3], st.g[4], st.g[5], st.code[0], st.code[1], st.code[2]);
-                    if k <= tie { ties.push((k, st)); }
+                    // near-leaf families: stage outputs only for k <= 2 (keeps the case file small)
+                    if k <= tie && (k <= 2 || !crate::gen_families::is_near_leaf(fam)) { ties.push((k, st)); }
                 }
                 Err((stage, m)) if m == "OVER" => { err = Some(format!("(OVER {k} {stage} {CAP_FACTOR})")); break; }
                 Err((stage, m)) => { err = Some(format!("(ERR {k} {stage} {})", sexp::quote(&m))); break; }
